@@ -1,1 +1,411 @@
-fn main(){}
+//! C11 monitor: drives the REAL `RangeMap` (crates/lexgen/src/range_map.rs, included by path from
+//! /repo's working tree) through operation sequences while a per-code-point shadow model is
+//! updated alongside; after every operation checks structural invariants and pointwise equality.
+#![allow(dead_code, unused_imports, clippy::all)]
+
+#[path = "/repo/crates/lexgen/src/range_map.rs"]
+mod range_map;
+#[path = "/repo/crates/lexgen/src/verif.rs"]
+mod verif;
+
+use range_map::{Range, RangeMap};
+use std::collections::BTreeSet;
+use std::panic::{catch_unwind, AssertUnwindSafe};
+use vmodel::json::J;
+use vmodel::rng::{hash64, Rng};
+
+type Val = Vec<u32>;
+
+fn merge(a: &mut Val, b: Val) {
+    a.extend(b)
+}
+
+/// Abstract operation (replayable, printable).
+#[derive(Clone, Debug)]
+enum Op {
+    Insert(u32, u32, u32),
+    /// insert_ranges with a map built from the listed (start, end, value) triples by `insert`
+    InsertRanges(Vec<(u32, u32, u32)>, bool),
+    /// remove_ranges with a map built from the listed ranges
+    Remove(Vec<(u32, u32)>, bool),
+}
+
+fn show_ops(base: &[(u32, u32, u32)], ops: &[Op]) -> String {
+    format!("base={:?} ops={:?}", base, ops)
+}
+
+/// Build a map from triples. `sorted_ctor`: use from_non_overlapping_sorted_ranges (requires
+/// sorted disjoint input), else repeated insert.
+fn build(triples: &[(u32, u32, u32)], sorted_ctor: bool) -> RangeMap<Val> {
+    if sorted_ctor {
+        RangeMap::from_non_overlapping_sorted_ranges(
+            triples
+                .iter()
+                .map(|(a, b, v)| Range {
+                    start: *a,
+                    end: *b,
+                    value: vec![*v],
+                })
+                .collect(),
+        )
+    } else {
+        let mut m = RangeMap::new();
+        for (a, b, v) in triples {
+            m.insert(*a, *b, vec![*v], merge);
+        }
+        m
+    }
+}
+
+/// Pointwise semantics of a triple list: multiset of values of triples covering cp.
+fn sem_triples(triples: &[(u32, u32, u32)], cp: u32) -> Option<Val> {
+    let mut v: Val = triples.iter().filter(|(a, b, _)| *a <= cp && cp <= *b).map(|t| t.2).collect();
+    if v.is_empty() {
+        None
+    } else {
+        v.sort();
+        Some(v)
+    }
+}
+
+/// Pointwise semantics of base + ops at cp (the shadow model: a direct fold, no interval logic).
+fn sem(base: &[(u32, u32, u32)], ops: &[Op], cp: u32) -> Option<Val> {
+    let mut cur = sem_triples(base, cp);
+    for op in ops {
+        match op {
+            Op::Insert(a, b, v) => {
+                if *a <= cp && cp <= *b {
+                    let mut x = cur.take().unwrap_or_default();
+                    x.push(*v);
+                    x.sort();
+                    cur = Some(x);
+                }
+            }
+            Op::InsertRanges(ts, _) => {
+                if let Some(o) = sem_triples(ts, cp) {
+                    let mut x = cur.take().unwrap_or_default();
+                    x.extend(o);
+                    x.sort();
+                    cur = Some(x);
+                }
+            }
+            Op::Remove(rs, _) => {
+                if rs.iter().any(|(a, b)| *a <= cp && cp <= *b) {
+                    cur = None;
+                }
+            }
+        }
+    }
+    cur
+}
+
+fn apply(m: &mut RangeMap<Val>, op: &Op) {
+    match op {
+        Op::Insert(a, b, v) => m.insert(*a, *b, vec![*v], merge),
+        Op::InsertRanges(ts, sorted) => {
+            let o = build(ts, *sorted);
+            m.insert_ranges(o.into_iter(), merge);
+        }
+        Op::Remove(rs, sorted) => {
+            let ts: Vec<(u32, u32, u32)> = rs.iter().map(|(a, b)| (*a, *b, 0)).collect();
+            let o = build(&ts, *sorted);
+            m.remove_ranges(&o);
+        }
+    }
+}
+
+/// Check invariants and pointwise content at the given probe points. Returns a description of
+/// the first problem.
+fn check(m: &RangeMap<Val>, base: &[(u32, u32, u32)], ops: &[Op], probes: &[u32]) -> Option<String> {
+    let rs: Vec<&Range<Val>> = m.iter().collect();
+    for r in &rs {
+        if r.start > r.end {
+            return Some(format!("inverted piece {}..={}", r.start, r.end));
+        }
+    }
+    for w in rs.windows(2) {
+        if w[0].end >= w[1].start {
+            return Some(format!(
+                "pieces out of order or overlapping: {}..={} then {}..={}",
+                w[0].start, w[0].end, w[1].start, w[1].end
+            ));
+        }
+    }
+    for cp in probes {
+        let got = rs.iter().find(|r| r.start <= *cp && *cp <= r.end).map(|r| {
+            let mut v = r.value.clone();
+            v.sort();
+            v
+        });
+        let want = sem(base, ops, *cp);
+        if got != want {
+            return Some(format!("at code point {} the map holds {:?}, the model {:?}", cp, got, want));
+        }
+    }
+    None
+}
+
+struct Mon {
+    ops: u64,
+    nontrivial: BTreeSet<u64>,
+    violations: Vec<J>,
+    viol_count: u64,
+    samples: Vec<J>,
+    classes: std::collections::BTreeMap<String, u64>,
+    guard_age: u32,
+}
+
+impl Mon {
+    fn class(&mut self, k: &str) {
+        *self.classes.entry(k.to_string()).or_insert(0) += 1;
+    }
+
+    /// Run base + ops on the real map, checking after every operation.
+    fn run(&mut self, base: &[(u32, u32, u32)], base_sorted: bool, ops: &[Op], probes: &[u32], tag: &str) {
+        self.guard_age += 1;
+        if self.guard_age >= 2048 {
+            self.guard_age = 0;
+            let _g = verif::Guard::new();
+        }
+        let r = catch_unwind(AssertUnwindSafe(|| {
+            let mut m = build(base, base_sorted);
+            if let Some(p) = check(&m, base, &[], probes) {
+                return Some(format!("after construction: {}", p));
+            }
+            for i in 0..ops.len() {
+                apply(&mut m, &ops[i]);
+                if let Some(p) = check(&m, base, &ops[..=i], probes) {
+                    return Some(format!("after operation {} ({:?}): {}; map = {:?}", i, ops[i], p, m.iter().map(|r| (r.start, r.end, r.value.clone())).collect::<Vec<_>>()));
+                }
+            }
+            None
+        }));
+        self.ops += ops.len() as u64;
+        let problem = match r {
+            Ok(None) => None,
+            Ok(Some(p)) => Some(p),
+            Err(p) => {
+                let _g = verif::Guard::new();
+                Some(format!(
+                    "panic: {}",
+                    p.downcast_ref::<String>().cloned().or_else(|| p.downcast_ref::<&str>().map(|s| s.to_string())).unwrap_or_default()
+                ))
+            }
+        };
+        if let Some(p) = problem {
+            self.viol_count += 1;
+            if self.violations.len() < 12 {
+                self.violations.push(
+                    J::obj()
+                        .with("property", J::s("C11"))
+                        .with("engine", J::s("rangemap_mon"))
+                        .with("family", J::s(tag))
+                        .with("index", J::Int(self.viol_count as i64))
+                        .with("what", J::s(&format!("RangeMap: {}", p)))
+                        .with("definition", J::s(&show_ops(base, ops)))
+                        .with("base", J::Arr(base.iter().map(|t| J::Arr(vec![J::Int(t.0 as i64), J::Int(t.1 as i64), J::Int(t.2 as i64)])).collect()))
+                        .with("base_sorted_ctor", J::Bool(base_sorted))
+                        .with("ops", J::s(&format!("{:?}", ops))),
+                );
+            }
+        }
+    }
+}
+
+/// Maximal-run form of a subset bitmask over 0..n, and split (one piece per point) form.
+fn forms(mask: u32, n: u32) -> (Vec<(u32, u32)>, Vec<(u32, u32)>) {
+    let mut maximal = vec![];
+    let mut split = vec![];
+    let mut i = 0;
+    while i < n {
+        if mask >> i & 1 == 1 {
+            let s = i;
+            while i + 1 < n && mask >> (i + 1) & 1 == 1 {
+                i += 1;
+            }
+            maximal.push((s, i));
+            for k in s..=i {
+                split.push((k, k));
+            }
+        }
+        i += 1;
+    }
+    (maximal, split)
+}
+
+fn with_vals(rs: &[(u32, u32)], first: u32) -> Vec<(u32, u32, u32)> {
+    rs.iter().enumerate().map(|(i, (a, b))| (*a, *b, first + i as u32)).collect()
+}
+
+fn nontrivial_remove(base: &[(u32, u32, u32)], removed: &[(u32, u32)]) -> bool {
+    // removed range spans >= 2 base pieces, equals a piece, or touches a piece end point
+    for (ra, rb) in removed {
+        let mut spanned = 0;
+        for (a, b, _) in base {
+            if *a <= *rb && *ra <= *b {
+                spanned += 1;
+                if (a, b) == (ra, rb) || ra == a || rb == b || ra == b || rb == a {
+                    return true;
+                }
+            }
+        }
+        if spanned >= 2 {
+            return true;
+        }
+    }
+    false
+}
+
+fn main() {
+    let tier = std::env::var("VERIF_TIER").unwrap_or_else(|_| "quick".into());
+    let seed: u64 = std::env::var("VERIF_SEED").ok().and_then(|s| s.parse().ok()).unwrap_or(1);
+    let n: u32 = std::env::var("VP_RM_UNIVERSE").ok().and_then(|s| s.parse().ok()).unwrap_or(if tier == "quick" { 7 } else { 9 });
+    let n_random: usize = std::env::var("VP_RM_RANDOM").ok().and_then(|s| s.parse().ok()).unwrap_or(if tier == "quick" { 60_000 } else { 1_500_000 });
+    std::panic::set_hook(Box::new(|_| {}));
+    let mut mon = Mon {
+        ops: 0,
+        nontrivial: BTreeSet::new(),
+        violations: vec![],
+        viol_count: 0,
+        samples: vec![],
+        classes: Default::default(),
+        guard_age: 0,
+    };
+    let probes: Vec<u32> = (0..n + 1).collect();
+    let mut nt_count: u64 = 0;
+    // ---- exhaustive over the small universe
+    for bm in 0..(1u32 << n) {
+        let (bmax, bsplit) = forms(bm, n);
+        for (bform, bname) in [(&bmax, "maximal"), (&bsplit, "split")] {
+            if bname == "split" && bsplit == bmax {
+                continue;
+            }
+            let base = with_vals(bform, 100);
+            // remove_ranges: every removed subset in both forms
+            for rm in 0..(1u32 << n) {
+                let (rmax, rsplit) = forms(rm, n);
+                for (rform, rname) in [(&rmax, "maximal"), (&rsplit, "split")] {
+                    if rname == "split" && rsplit == rmax {
+                        continue;
+                    }
+                    let ops = vec![Op::Remove(rform.clone(), true)];
+                    mon.run(&base, true, &ops, &probes, "exhaustive remove_ranges");
+                    if nontrivial_remove(&base, rform) {
+                        nt_count += 1;
+                    }
+                }
+                // insert_ranges with the same second map (values 200..)
+                let other = with_vals(&rmax, 200);
+                let ops = vec![Op::InsertRanges(other, true)];
+                mon.run(&base, true, &ops, &probes, "exhaustive insert_ranges");
+            }
+            // insert: every (start <= end) pair
+            for a in 0..n {
+                for b in a..n {
+                    let ops = vec![Op::Insert(a, b, 300)];
+                    mon.run(&base, true, &ops, &probes, "exhaustive insert");
+                }
+            }
+        }
+    }
+    mon.class("exhaustive_universe_size");
+    let exhaustive_ops = mon.ops;
+    // ---- random sequences over the full code-point range
+    let hostile: [u32; 14] = [0, 1, 0x7F, 0x80, 0xD7FE, 0xD7FF, 0xD800, 0xDFFF, 0xE000, 0xE001, 0xFFFF, 0x10000, 0x10FFFE, 0x10FFFF];
+    let mut rng = Rng::derive(seed, &[0xC11]);
+    for _ in 0..n_random {
+        let pool: Vec<u32> = {
+            let k = rng.range(3, 8);
+            let mut v: Vec<u32> = (0..k)
+                .map(|_| {
+                    if rng.chance(3, 5) {
+                        *rng.pick(&hostile)
+                    } else if rng.chance(1, 2) {
+                        rng.below(40) as u32
+                    } else {
+                        rng.below(0x110000) as u32
+                    }
+                })
+                .collect();
+            v.sort();
+            v.dedup();
+            v
+        };
+        let pick_range = |rng: &mut Rng| -> (u32, u32) {
+            let a = *rng.pick(&pool);
+            let b = *rng.pick(&pool);
+            (a.min(b), a.max(b))
+        };
+        let mut val = 1;
+        let nb = rng.range(0, 4);
+        let mut base = vec![];
+        for _ in 0..nb {
+            let (a, b) = pick_range(&mut rng);
+            base.push((a, b, val));
+            val += 1;
+        }
+        let nops = rng.range(1, 8);
+        let mut ops = vec![];
+        for _ in 0..nops {
+            match rng.below(3) {
+                0 => {
+                    let (a, b) = pick_range(&mut rng);
+                    ops.push(Op::Insert(a, b, val));
+                    val += 1;
+                }
+                1 => {
+                    let k = rng.range(1, 3);
+                    let mut ts = vec![];
+                    for _ in 0..k {
+                        let (a, b) = pick_range(&mut rng);
+                        ts.push((a, b, val));
+                        val += 1;
+                    }
+                    ops.push(Op::InsertRanges(ts, false));
+                }
+                _ => {
+                    let k = rng.range(1, 3);
+                    let mut rs = vec![];
+                    for _ in 0..k {
+                        rs.push(pick_range(&mut rng));
+                    }
+                    ops.push(Op::Remove(rs, false));
+                    nt_count += 1;
+                }
+            }
+        }
+        let mut probes: Vec<u32> = vec![];
+        for p in &pool {
+            for d in [-1i64, 0, 1] {
+                let v = *p as i64 + d;
+                if (0..=0x10FFFF).contains(&v) {
+                    probes.push(v as u32);
+                }
+            }
+        }
+        probes.sort();
+        probes.dedup();
+        mon.run(&base, false, &ops, &probes, "random sequence");
+        if mon.samples.len() < 2 {
+            mon.samples.push(J::s(&show_ops(&base, &ops)));
+        }
+    }
+    for v in &mon.violations {
+        println!("{}", J::obj().with("t", J::s("V")).with("v", v.clone()).to_string());
+    }
+    println!(
+        "{}",
+        J::obj()
+            .with("t", J::s("S"))
+            .with("engine", J::s("rangemap_mon"))
+            .with("operations", J::Int(mon.ops as i64))
+            .with("exhaustive_operations", J::Int(exhaustive_ops as i64))
+            .with("random_sequences", J::i(n_random))
+            .with("universe", J::Int(n as i64))
+            .with("nontrivial", J::Int(nt_count as i64))
+            .with("violations", J::Int(mon.viol_count as i64))
+            .with("samples", J::Arr(mon.samples.clone()))
+            .to_string()
+    );
+    let _ = hash64(b"");
+}
